@@ -373,6 +373,12 @@ class World(BaseWorld):
             return cls(spec["n"], spec["m"], spec.get("phase", 0))
         if family == "tensor":
             return mod.Spider(spec["n"], spec["m"], mod.Dim(spec.get("dim", 2)))
+        if family == "rigid":
+            # pregroup words, some with a free symbol in their data (for subs / lambdify)
+            import sympy
+            from discopy.grammar.pregroup import Word
+            ty = mk_type("rigid", spec["ty"])
+            return Word(spec["name"], ty, data=sympy.Symbol("phi") if spec.get("sym") else None)
         if family == "circuit":
             from discopy.quantum import gates as G
             from discopy.quantum import circuit as C
@@ -479,6 +485,12 @@ class World(BaseWorld):
             thunk = lambda: a.downgrade()
         elif f == "layers_slices":
             thunk = lambda: [a[:k] >> a[k:] for k in range(len(a) + 1)]
+        elif f in ("subs_any", "lambdify_any"):
+            import sympy
+            phi = sympy.Symbol("phi")
+            if len(a) > 10:
+                return "skipped"
+            thunk = (lambda: a.subs(phi, 0.5)) if f == "subs_any" else (lambda: a.lambdify(phi)(0.5))
         elif f in ("circuit2zx", "init_and_discard", "tk_roundtrip", "grad", "subs"):
             if family != "circuit" or len(a) > 8:
                 return "skipped"
@@ -922,6 +934,9 @@ class Driver:
         if family == "tensor":
             return {"kind": "special", "which": "Spider", "n": gen.randint(0, 3), "m": gen.randint(0, 3),
                     "dim": gen.choice([2, 3])}
+        if family == "rigid":
+            return {"kind": "special", "which": "Word", "name": gen.choice(["Alice", "loves", "Bob"]),
+                    "ty": atoms("rigid", gen, gen.randint(1, 3)), "sym": gen.random() < 0.6}
         if family == "circuit":
             return {"kind": "special", "which": gen.choice(["H", "CX", "Rx", "Ket", "Bra", "Measure", "Discard",
                                                             "SWAP", "CRz", "Rx_sym", "CRz_sym"]), "phase": gen.choice([0.25, 0.5])}
@@ -989,7 +1004,7 @@ class Driver:
         if r < 0.45:
             f = sched.choice(["dagger", "dagger_method", "iter", "layers_slices", "bubble", "downgrade",
                               "depth_width", "foliation", "foliation_flatten", "foliate_all", "normalize_all",
-                              "normal_form", "transpose_l", "transpose_r"] + (
+                              "normal_form", "transpose_l", "transpose_r", "subs_any", "lambdify_any"] + (
                                   ["circuit2zx", "init_and_discard", "tk_roundtrip", "grad", "subs"] * 2
                                   if family == "circuit" else []))
             return {"op": "unop", "f": f, "a": a, "dst": self.dst(), "left": sched.random() < 0.5}
